@@ -34,6 +34,7 @@ class Eval:
         self.seed = seed
         self.cache = {}
         self.forced = {}
+        self.registry = {}  # function name -> list of (observed args, value-or-salt)
 
     def arr_const(self, name):
         return lambda i, n=name: _hreal(self.seed, "arr", n, int(i))
@@ -92,15 +93,24 @@ class Eval:
                 return math.sqrt(args[0]) if args[0] >= 0 else _hreal(self.seed, "sqrtneg", round(args[0], 9))
             keyargs = tuple(self.obs(a) for a in args)
             rs = t.sort()
+            # one value per (function, argument tuple); argument tuples are matched with a tolerance so that two
+            # extensionally equal arguments computed in a different floating-point order denote the SAME argument
+            entry = self.lookup(name, keyargs)
+            if entry is None:
+                n = len(self.registry.get(name, []))
+                if rs.kind() == z3.Z3_ARRAY_SORT:
+                    val = ("salt", n)
+                elif rs == z3.BoolSort():
+                    val = _h(self.seed, "ufb", name, n) % 2 == 0
+                elif rs == z3.IntSort():
+                    val = _h(self.seed, "ufi", name, n) % 7
+                else:
+                    val = _hreal(self.seed, "ufr", name, n)
+                self.registry.setdefault(name, []).append((keyargs, val))
+                entry = val
             if rs.kind() == z3.Z3_ARRAY_SORT:
-                return lambda i, n=name, ka=keyargs: _hreal(self.seed, "ufa", n, ka, int(i))
-            if rs == z3.BoolSort():
-                if (name, keyargs) in self.forced:
-                    return self.forced[(name, keyargs)]
-                return _h(self.seed, "ufb", name, keyargs) % 2 == 0
-            if rs == z3.IntSort():
-                return _h(self.seed, "ufi", name, keyargs) % 7
-            return _hreal(self.seed, "ufr", name, keyargs)
+                return lambda i, n=name, sl=entry: _hreal(self.seed, "ufa", n, sl, int(i))
+            return entry
         if k == z3.Z3_OP_ADD:
             return sum(E(c) for c in ch)
         if k == z3.Z3_OP_SUB:
@@ -176,6 +186,29 @@ class Eval:
             return lambda i, a=a, j=j, v=v: v if i == j else a(i)
         raise ValueError(f"numeval: unsupported operator {t.decl().name()}")
 
+    def close(self, a, b):
+        if isinstance(a, tuple) or isinstance(b, tuple):
+            return isinstance(a, tuple) and isinstance(b, tuple) and len(a) == len(b) and all(self.close(x, y) for x, y in zip(a, b))
+        if isinstance(a, bool) or isinstance(b, bool):
+            return a == b
+        if isinstance(a, (int, float)) and isinstance(b, (int, float)):
+            return abs(a - b) <= 1e-7 * max(1.0, abs(a), abs(b))
+        return a == b
+
+    def lookup(self, name, keyargs):
+        for k, v in self.registry.get(name, []):
+            if self.close(k, keyargs):
+                return v
+        return None
+
+    def force(self, name, keyargs, val):
+        """returns False if the application already has a different value"""
+        old = self.lookup(name, keyargs)
+        if old is not None:
+            return self.eq(old, val) if not isinstance(old, tuple) else False
+        self.registry.setdefault(name, []).append((keyargs, val))
+        return True
+
     def eq(self, a, b):
         if callable(a) or callable(b):
             return all(self.eq(a(i), b(i)) for i in SAMPLES)
@@ -208,11 +241,9 @@ def numeric_refute(hyp, goal, env, seeds=range(24)):
                     pol, atom = not pol, atom.children()[0]
                 if (z3.is_app(atom) and atom.decl().kind() == z3.Z3_OP_UNINTERPRETED and atom.num_args() > 0 and z3.is_bool(atom)
                         and any(a.sort().kind() == z3.Z3_ARRAY_SORT for a in atom.children())):
-                    key = (atom.decl().name(), tuple(ev.obs(ev.ev(a)) for a in atom.children()))
-                    if ev.forced.get(key, pol) != pol:
+                    if not ev.force(atom.decl().name(), tuple(ev.obs(ev.ev(a)) for a in atom.children()), pol):
                         ok = False
                         break
-                    ev.forced[key] = pol
             if not ok:
                 continue
             ev.cache = {}
@@ -220,4 +251,76 @@ def numeric_refute(hyp, goal, env, seeds=range(24)):
                 return ev
         except (ValueError, ZeroDivisionError, OverflowError, TypeError):
             continue
+    return None
+
+
+def guided_refute(hyp, goal, abstract, pyval, timeout_ms=4000, tries=4):
+    """Model-guided search: solve the ABSTRACTED query (scalar/Bool functions of whole arrays replaced by constants) with z3,
+    then build the concrete interpretation in which exactly those function applications take the model's values (arrays and
+    everything else pseudo-random), and VERIFY by evaluation that hyp holds and goal fails.  Only a verified interpretation is
+    returned, so the answer is a genuine counter-model."""
+    subs = {}
+
+    def visit(t, seen):
+        if t.get_id() in seen:
+            return
+        seen.add(t.get_id())
+        if z3.is_app(t) and t.decl().kind() == z3.Z3_OP_UNINTERPRETED and t.num_args() > 0 and t.sort().kind() != z3.Z3_ARRAY_SORT \
+                and any(a.sort().kind() == z3.Z3_ARRAY_SORT for a in t.children()):
+            subs[t.get_id()] = (t, z3.Const(f"abs!{t.decl().name()}!{t.get_id()}", t.sort()))
+            return
+        if z3.is_quantifier(t):
+            visit(t.body(), seen)
+            return
+        for ch in t.children():
+            visit(ch, seen)
+
+    seen = set()
+    visit(hyp, seen)
+    visit(goal, seen)
+    pairs = list(subs.values())
+    if not pairs:
+        return None
+    a_hyp, a_goal = z3.substitute(hyp, *pairs), z3.substitute(goal, *pairs)
+    sol = z3.Solver()
+    sol.set("timeout", timeout_ms)
+    sol.add(a_hyp, z3.Not(a_goal))
+    for attempt in range(tries):
+        try:
+            if sol.check() != z3.sat:
+                return None
+        except z3.Z3Exception:
+            return None
+        m = sol.model()
+        env = {}
+        for d in m.decls():
+            if d.arity() == 0 and not d.name().startswith("abs!"):
+                try:
+                    env[d.name()] = pyval(m[d])
+                except Exception:
+                    pass
+        ev = Eval(env, seed=attempt)
+        conflict = None
+        keys = {}
+        try:
+            for t, c in pairs:
+                name, key = t.decl().name(), tuple(ev.obs(ev.ev(a)) for a in t.children())
+                val = pyval(m.eval(c, model_completion=True))
+                prev = [cc for (nn, kk, cc) in keys.get("list", []) if nn == name and ev.close(kk, key)]
+                if not ev.force(name, key, val):
+                    conflict = (prev[0] if prev else c, c)
+                    break
+                keys.setdefault("list", []).append((name, key, c))
+            if conflict is not None:
+                if conflict[0] is conflict[1]:
+                    return None
+                sol.add(conflict[0] == conflict[1])  # semantically equal applications must agree
+                continue
+            ev.cache = {}
+            if ev.ev(hyp) and not ev.ev(goal):
+                return ev
+        except (ValueError, ZeroDivisionError, OverflowError, TypeError):
+            pass
+        # block this assignment of the abstract constants and try another
+        sol.add(z3.Or(*[c != m.eval(c, model_completion=True) for _, c in pairs]))
     return None
